@@ -445,6 +445,41 @@ func runC09(c *core.Ctx) {
 			if offer == nil {
 				return false, "Schedule does not offer the job to the job queue"
 			}
+			// the spawn loop is told about the accepted job: a wake-up deferred before the offer, or posted after it
+			// on every path that accepted the job
+			isWake := func(cc *ssa.CallCommon) bool {
+				if len(cc.Args) == 0 || core.FieldKey(cc.Args[0]) != "DefaultWorkerPool.spawnWorkerCh" {
+					return false
+				}
+				g := core.Callee(cc)
+				return g != nil && chanSends(g)
+			}
+			woken := false
+			core.Instrs(sched, func(ins ssa.Instruction) {
+				if d, isD := ins.(*ssa.Defer); isD && isWake(&d.Call) && core.InstrDominates(d, offer) {
+					woken = true
+				}
+			})
+			if !woken {
+				min, _ := core.PathCountFrom(offer.Block(), offer, func(ins ssa.Instruction) int {
+					if call, isC := ins.(*ssa.Call); isC && isWake(&call.Call) {
+						return 1
+					}
+					return 0
+				}, func(b *ssa.BasicBlock) bool {
+					// paths on which the offer failed need no wake-up
+					for _, m := range core.EdgeCmps(b) {
+						if core.Resolve(m.X) == ssa.Value(offer) && (m.Op == token.NEQ && core.IsNilConst(m.Y) || m.Op == token.EQL && !core.IsNilConst(m.Y)) {
+							return true
+						}
+					}
+					return false
+				})
+				woken = min >= 1
+			}
+			if !woken {
+				return false, "Schedule does not wake the spawn loop after offering the job: with no idle worker alive the accepted job is never given a worker"
+			}
 			// result mapping
 			fullOK, passOK := false, false
 			for _, rc := range core.ReturnCases(sched) {
